@@ -245,6 +245,13 @@ func (m *Machine) binop(it *Item, x *ssa.BinOp) Value {
 		return c.Not(eq)
 	case T:
 		bv := b.(T)
+		// a merged value read through a type assertion that fails on this path (fields of another struct type at
+		// the same offsets) can pair a bool with an int: the path is infeasible, coerce instead of stopping
+		if av.Sort == sym.SBool && bv.Sort != sym.SBool {
+			bv = c.Not(c.Eq(bv, m.zeroOfSort(bv)))
+		} else if bv.Sort == sym.SBool && av.Sort != sym.SBool {
+			av = c.Not(c.Eq(av, m.zeroOfSort(av)))
+		}
 		if av.Sort == sym.SBool {
 			switch x.Op {
 			case token.EQL:
@@ -769,3 +776,10 @@ func (m *Machine) inHarness(it *Item) bool {
 }
 
 type divRec struct{ a, b, q T }
+
+func (m *Machine) zeroOfSort(t T) T {
+	if t.Sort == sym.SInt || m.IntMode {
+		return m.IntC(0)
+	}
+	return m.C.BV(0)
+}
